@@ -185,12 +185,15 @@ func genCfg(r *rand.Rand, g GenOpts) *Cfg {
 		c.DeadSB = false
 	}
 	forced := []int64{c.Ante, c.SB, c.BB, c.Dl, c.Ante + c.SB, c.Ante + c.BB, c.Ante + c.Dl}
-	band := r.Intn(6)
+	band := r.Intn(10)
 	for i := 0; i < c.N; i++ {
 		var b int64
 		k := r.Intn(5)
 		if band == 0 {
 			k = 1 + r.Intn(2) // all short / medium: many all-ins and side pots
+		}
+		if band >= 6 {
+			k = 3 // deep stacks all round: several streets of real betting
 		}
 		switch k {
 		case 0:
@@ -217,7 +220,8 @@ func genCfg(r *rand.Rand, g GenOpts) *Cfg {
 	// personas per seat
 	mix := r.Intn(8)
 	for i := 0; i < c.N; i++ {
-		p := r.Intn(numPersonas)
+		p := []int{personaRandom, personaRandom, personaRandom, personaCaller, personaCaller, personaCaller, personaMinRaiser, personaMinRaiser,
+			personaFolder, personaBoundary, personaBoundary, personaManiac}[r.Intn(12)]
 		switch mix {
 		case 0:
 			p = personaCaller
@@ -232,6 +236,9 @@ func genCfg(r *rand.Rand, g GenOpts) *Cfg {
 		}
 		if g.ShowdownBias && r.Intn(3) != 0 {
 			p = []int{personaCaller, personaCaller, personaManiac, personaFolder}[r.Intn(4)]
+		}
+		if band >= 6 && (p == personaManiac || p == personaMinRaiser) && r.Intn(4) != 0 {
+			p = []int{personaRandom, personaCaller, personaMinRaiser, personaBoundary}[r.Intn(4)]
 		}
 		c.Personas = append(c.Personas, p)
 	}
@@ -270,6 +277,10 @@ func betAmount(r *rand.Rand, s *pokerface.GameState, cp *pokerface.PlayerState, 
 	case personaManiac:
 		amt = cp.StackSize - int64(r.Intn(2))
 	default:
+		if r.Intn(2) == 0 {
+			amt = s.Status.MiniBet + rnd63(r, 3*s.Status.MiniBet+2) // an ordinary small bet
+			break
+		}
 		switch r.Intn(9) {
 		case 8:
 			amt = cp.StackSize + 1 + rnd63(r, 2*cp.StackSize+50) // clearly more than the player has
@@ -316,6 +327,10 @@ func raiseAmount(r *rand.Rand, s *pokerface.GameState, cp *pokerface.PlayerState
 			amt = cw + 2*prs + int64(r.Intn(50))
 		}
 	default:
+		if r.Intn(2) == 0 {
+			amt = cw + prs + rnd63(r, 2*prs+2) // an ordinary small raise
+			break
+		}
 		switch r.Intn(10) {
 		case 9:
 			amt = 2 * cw // the minimum raise over an opening bet, whatever the engine recorded as its size
@@ -393,7 +408,7 @@ func chooseAction(r *rand.Rand, s *pokerface.GameState, c *Cfg) Op {
 		switch {
 		case has("pass"):
 			name = "pass"
-		case has("raise") && r.Intn(8) != 0:
+		case has("raise") && r.Intn(8) != 0 && (len(c.Personas) == 0 || c.Personas[0] == personaMinRaiser || r.Intn(3) == 0):
 			name = "raise"
 		case has("bet"):
 			name = "bet"
@@ -419,6 +434,12 @@ func chooseAction(r *rand.Rand, s *pokerface.GameState, c *Cfg) Op {
 		name = aa[r.Intn(len(aa))]
 		if (name == "fold" || name == "allin") && r.Intn(2) == 0 {
 			name = aa[r.Intn(len(aa))]
+		}
+		if name == "allin" && len(aa) > 1 && r.Intn(6) != 0 {
+			// keep shoves the exception so that hands reach later streets with chips behind
+			for name == "allin" {
+				name = aa[r.Intn(len(aa))]
+			}
 		}
 	}
 	op := Op{Name: name, Seat: -1}
